@@ -55,3 +55,43 @@ func TestVerifReplayUnbindOtherIncarnation(t *testing.T) {
 	fmt.Println("NOT-REPRODUCED: the live pod's ip was left alone")
 	_ = floatingip.Attr{}
 }
+
+// getSubnet#post:held-ips-routable-from-offered-subnets (and #inv-step:L0): every node subnet that
+// filter offers must be able to reach EVERY IP the pod already holds in its requested ranges.
+// Scenario: the pod holds one IP in each of two pools with different node subnets and requests a
+// third range that is still free.
+func TestVerifReplayGetSubnetHeldIPs(t *testing.T) {
+	pod := CreateStatefulSetPod("pod1-0", "ns1",
+		cniArgsAnnotation(`{"request_ip_range":[["10.49.27.205"],["10.173.13.2"],["10.49.27.216"]]}`))
+	keyObj, _ := schedulerplugin_util.FormatKey(pod)
+	fipPlugin, stopChan, _ := createPluginTestNodes(t, pod)
+	defer func() { stopChan <- struct{}{} }()
+	for _, ip := range []string{"10.49.27.205", "10.173.13.2"} {
+		if err := fipPlugin.ipam.AllocateSpecificIP(keyObj.KeyInDB, net.ParseIP(ip), floatingip.Attr{}); err != nil {
+			t.Fatalf("setup: %v", err)
+		}
+	}
+	cniArgs, err := getPodCniArgs(pod)
+	if err != nil {
+		t.Fatal(err)
+	}
+	held, err := fipPlugin.ipam.ByKeyAndIPRanges(keyObj.KeyInDB, cniArgs.RequestIPRange)
+	if err != nil {
+		t.Fatal(err)
+	}
+	subnets, err := fipPlugin.getSubnet(pod)
+	if err != nil {
+		fmt.Println("NOT-REPRODUCED: getSubnet returned an error:", err)
+		return
+	}
+	for _, s := range subnets.List() {
+		for i, info := range held {
+			if info != nil && !info.NodeSubnets.Has(s) {
+				fmt.Printf("REPRODUCED: node subnet %s is offered to pod %s, but the ip %s it already holds for range list %d is only routable from %v\n",
+					s, keyObj.KeyInDB, info.IPInfo.IP.IP.String(), i, info.NodeSubnets.List())
+				t.FailNow()
+			}
+		}
+	}
+	fmt.Println("NOT-REPRODUCED: offered subnets", subnets.List(), "reach every held ip")
+}
